@@ -273,6 +273,11 @@ func (t *Thread) processIncomingInterest(packet *defn.Pkt) {
 					packet.Raw = csWire
 					packet.Name = csData.NameV
 					strategy.AfterContentStoreHit(packet, pitEntry, incomingFace.FaceID())
+
+					// The Interest has been answered and its in-record consumed. Schedule the
+					// expiration of the PIT entry (now, unless other records are still pending);
+					// otherwise an entry created above is never put on the expiry queue.
+					table.UpdateExpirationTimer(pitEntry)
 					return
 				} else if err != nil {
 					core.LogError(t, "Error copying CS entry: ", err)
